@@ -24,6 +24,7 @@ PROFILE = Profile("wire_small", explicit_defaults=True, unknown_tags=True, any_f
 # ~8 calls per byte.  The bounds below carry 4x headroom over that worst case.
 CALLS_A, CALLS_B = 400, 32
 READS_A, READS_B = 16, 8
+BYTES_A, BYTES_B = 64, 4  # bytes a BytesIO source may hand out in total: 64 + 4 per input byte
 MEM_A, MEM_B = 1 << 20, 1024  # bytes of peak traced allocation allowed: 1 MiB + 1 KiB per input byte
 
 ALLOWED = (K.SerialError, ValueError, OverflowError)
@@ -66,6 +67,49 @@ class MemoryBoundExceeded(Exception):
     pass
 
 
+class CountingBytesIO(io.BytesIO):
+    """A real io.BytesIO (isinstance checks and fast paths see one) that counts calls and the bytes it hands out through
+    any of its data-returning methods; the totals are bounded like the read calls of the read-only source."""
+
+    def __init__(self, data: bytes, max_calls: int):
+        super().__init__(data)
+        self.calls = 0
+        self.handed_out = 0
+        self.max_calls = max_calls
+        self.total = len(data)
+
+    def _count(self, out):
+        from ..streams import ReadBudgetExceeded
+
+        self.calls += 1
+        self.handed_out += len(out)
+        if self.calls > self.max_calls:
+            raise ReadBudgetExceeded(f"more than {self.max_calls} data calls on the BytesIO source")
+        if self.handed_out > BYTES_A + BYTES_B * self.total:
+            raise ReadBudgetExceeded(f"the BytesIO source handed out {self.handed_out} bytes for a {self.total}-byte input")
+        return out
+
+    def read(self, *a):
+        return self._count(super().read(*a))
+
+    def read1(self, *a):
+        return self._count(super().read1(*a))
+
+    def readline(self, *a):
+        return self._count(super().readline(*a))
+
+    def getvalue(self):
+        return self._count(super().getvalue())
+
+    def getbuffer(self):
+        return self._count(super().getbuffer())
+
+    def readinto(self, b):
+        n = super().readinto(b)
+        self._count(b"x" * (n or 0))
+        return n
+
+
 def decode_guarded(cls, data: bytes, measure_mem: bool = False):
     """-> (outcome, value_or_exc, calls, reads, consumed)"""
     _limit_memory()
@@ -83,7 +127,12 @@ def decode_guarded(cls, data: bytes, measure_mem: bool = False):
         if peak > MEM_A + MEM_B * len(data) and res[0] != "cost":
             return ("mem", MemoryBoundExceeded(f"peak allocation {peak} bytes"),) + res[2:]
         return res
-    src = ReadOnlySource(data, max_reads=READS_A + READS_B * len(data), strict_sizes=False)
+    # half of the inputs (chosen by content, so replay is stable) come from a real, counting io.BytesIO
+    use_bytesio = (sum(data) + len(data)) % 2 == 1
+    if use_bytesio:
+        src = CountingBytesIO(data, READS_A + READS_B * len(data))
+    else:
+        src = ReadOnlySource(data, max_reads=READS_A + READS_B * len(data), strict_sizes=False)
     reader = K.entity_reader(cls)
     prof = _Profiler(CALLS_A + CALLS_B * len(data))
     outcome, val = "returned", None
@@ -96,6 +145,8 @@ def decode_guarded(cls, data: bytes, measure_mem: bool = False):
         outcome, val = "raised", e
     finally:
         sys.setprofile(None)
+    if use_bytesio:
+        return outcome, val, prof.calls, src.calls, src.tell()
     return outcome, val, prof.calls, len(src.sizes), src.consumed
 
 
@@ -261,7 +312,7 @@ SPEC = TreeSpec(
         "truncate, duplicate) placed via the reference offset map on length prefixes, tag counts, tag numbers, tag sizes, "
         "nullable markers or values. Oracle: decode returns or raises SerialError/ValueError/OverflowError; Python calls "
         "(sys.setprofile) <= 400+32*len and read calls <= 16+8*len (counted, the profiler aborts the decode beyond the "
-        "bound); for cases with a hostile length, peak traced allocation (tracemalloc) <= 1 MiB + 1 KiB*len; bytes consumed <= len; a returned entity must encode, and decode->encode of that must be idempotent. "
+        "bound); half of the inputs are served by a real io.BytesIO subclass that also bounds the bytes handed out through read/read1/getvalue/getbuffer/readinto to 64 + 4*len; for cases with a hostile length, peak traced allocation (tracemalloc) <= 1 MiB + 1 KiB*len; bytes consumed <= len; a returned entity must encode, and decode->encode of that must be idempotent. "
         "Non-trivial = input differs from the valid encoding it was derived from (or is random) and the decoder got past "
         "the first read (>=2 reads); distinct by hash of (class, tree, edits)."
     ),
